@@ -12,7 +12,7 @@
   normal, componentwise).
 
   -- [V] |sweep| >= 360 degrees makes `PlaneSector::new` return the `EntirePlane` tag (f32 / fixed-point comparison `angle_sweep.abs() >= ANGLE_360DEG`): carried by correspondence + oracle only
-  -- [V] AngularClaim (points within 1.5 px of the radial boundaries or inside the sweep; circle points further inside are included; diameters up to 128) for the normals the real trigonometry produces, default and fixed_point build: carried by correspondence + oracle only (proved here: the error-propagation lemma, exactness of the half-plane tests beyond the error margin, the bisector test is implied for non-parallel normals, degenerate sweeps give the forward ray)
+  -- [V] SectorAngle.AngularClaim (points within 1.5 px of the radial boundaries or inside the sweep; circle points further inside are included; diameters up to 128) for the normals the real trigonometry produces, default and fixed_point build: carried by correspondence + oracle only (proved here: the error-propagation lemma, exactness of the half-plane tests beyond the error margin, the bisector test is implied for non-parallel normals, degenerate sweeps give the forward ray)
 -/
 import EG.Lemmas.SectorAngular
 namespace EG.C18
@@ -179,6 +179,7 @@ theorem plane_sector_degenerate_is_ray (ps : PlaneSector) (hop : ps.op = .inters
 example : (⟨.intersection, ⟨0, 1024⟩, ⟨0, 1024⟩⟩ : PlaneSector).contains ⟨4, 0⟩ = true ∧
     (⟨.intersection, ⟨0, 1024⟩, ⟨0, 1024⟩⟩ : PlaneSector).contains ⟨-4, 0⟩ = false := by decide
 
+namespace SectorAngle   -- (sub-namespace: keeps the short geometric names out of `EG.C18`)
 section Claim
 variable (K : Type) [CommRing K] [LinearOrder K] [IsStrictOrderedRing K]
 
@@ -232,5 +233,6 @@ def AngularClaim (eps tol : K) : Prop :=
       (E.inside delta → ¬ nearRay E.ul tol delta → ¬ nearRay E.ur tol delta → ps.contains delta = true)
 
 end Claim
+end SectorAngle
 
 end EG.C18
